@@ -36,7 +36,7 @@ CATALOGUE = ["SIS", "SIS_Periodic", "SIR", "SEIR", "SIR_Birth_Death", "SEIR_Birt
 def plan(tier):
     q = tier == "quick"
     return [
-        {"lane": "main", "n": 480 if q else 40000, "timeout": 900 if q else 3300, "min_per_shard": 10},
+        {"lane": "main", "n": 480 if q else 16000, "timeout": 900 if q else 3300, "min_per_shard": 10},
         {"lane": "cython", "n": 16 if q else 320, "timeout": 1200 if q else 3300, "min_per_shard": 1, "max_shards": 16,
          "optional": True},
         {"lane": "catalogue", "n": len(CATALOGUE), "timeout": 900, "min_per_shard": 2, "max_shards": 8},
